@@ -1,0 +1,7 @@
+//go:build !verif
+
+package analysis
+
+import "go/types"
+
+func verifTrace(ev string, typ types.Type, node Type) {}
